@@ -1,9 +1,11 @@
 package core
 
 import (
+	"fmt"
 	"go/constant"
 	"go/token"
 	"go/types"
+	"sort"
 	"strings"
 
 	"golang.org/x/tools/go/ssa"
@@ -372,6 +374,9 @@ type Reach struct {
 	// entered from a predecessor on which the phi has the non-constant value val; the successor on
 	// which val is `truth` is not followed when StopPhi(val, truth) is true.
 	StopPhi func(val ssa.Value, truth bool) bool
+	// Assume: bool values taken to have the given truth value on every path walked (a comparison that
+	// is stored into a flag and branched on later is followed as if it had that value).
+	Assume map[ssa.Value]bool
 }
 
 // FromInstr returns the set of instructions reachable strictly after start.
@@ -387,7 +392,7 @@ func (r Reach) FromEdge(from, to *ssa.BasicBlock) map[ssa.Instruction]bool {
 	if r.StopEdge != nil && r.StopEdge(from, to) {
 		return seen
 	}
-	r.walk(to, 0, seen, map[*ssa.BasicBlock]bool{})
+	r.walkFrom(to, 0, from, seen, map[*ssa.BasicBlock]bool{})
 	return seen
 }
 
@@ -402,22 +407,149 @@ func (r Reach) FromEntry(fn *ssa.Function) map[ssa.Instruction]bool {
 }
 
 func (r Reach) walk(b *ssa.BasicBlock, from int, seen map[ssa.Instruction]bool, vis map[*ssa.BasicBlock]bool) {
+	r.walkFrom(b, from, nil, seen, vis)
+}
+
+// phiEnv is the set of bool phis whose value is known on the path walked so far (a flag such as
+// `ok := false; if c { ok = x == 0 }; if !ok { return }` is a chain of such phis).
+type phiEnv map[*ssa.Phi]bool
+
+func (e phiEnv) key() string {
+	if len(e) == 0 {
+		return ""
+	}
+	var ks []string
+	for p, v := range e {
+		ks = append(ks, fmt.Sprintf("%s=%v", p.Name(), v))
+	}
+	sort.Strings(ks)
+	return strings.Join(ks, ",")
+}
+
+// boolPhisOfInterest: the bool phis of fn that decide a branch, directly or through other phis.
+var boolPhiCache = map[*ssa.Function]map[*ssa.Phi]bool{}
+
+func boolPhisOfInterest(fn *ssa.Function) map[*ssa.Phi]bool {
+	if m, ok := boolPhiCache[fn]; ok {
+		return m
+	}
+	m := map[*ssa.Phi]bool{}
+	var add func(v ssa.Value, d int)
+	add = func(v ssa.Value, d int) {
+		if d > 6 {
+			return
+		}
+		v, _ = StripNot(v, true)
+		ph, ok := v.(*ssa.Phi)
+		if !ok || m[ph] {
+			return
+		}
+		if bt, ok := ph.Type().Underlying().(*types.Basic); !ok || bt.Info()&types.IsBoolean == 0 {
+			return
+		}
+		m[ph] = true
+		for _, e := range ph.Edges {
+			add(e, d+1)
+		}
+	}
+	for _, b := range fn.Blocks {
+		if ifi, ok := lastInstr(b).(*ssa.If); ok {
+			add(ifi.Cond, 0)
+		}
+	}
+	boolPhiCache[fn] = m
+	return m
+}
+
+// enter computes the environment after entering block b from pred with environment env.
+func (e phiEnv) enter(b, pred *ssa.BasicBlock, assume map[ssa.Value]bool) phiEnv {
+	if pred == nil {
+		return e
+	}
+	interest := boolPhisOfInterest(b.Parent())
+	if len(interest) == 0 {
+		return e
+	}
+	idx := -1
+	for i, p := range b.Preds {
+		if p == pred {
+			idx = i
+		}
+	}
+	var out phiEnv
+	set := func(p *ssa.Phi, v, known bool) {
+		if old, had := e[p]; had == known && (!known || old == v) {
+			return
+		}
+		if out == nil {
+			out = phiEnv{}
+			for k, x := range e {
+				out[k] = x
+			}
+		}
+		if known {
+			out[p] = v
+		} else {
+			delete(out, p)
+		}
+	}
+	for _, in := range b.Instrs {
+		ph, ok := in.(*ssa.Phi)
+		if !ok {
+			break
+		}
+		if !interest[ph] || idx < 0 || idx >= len(ph.Edges) {
+			continue
+		}
+		v, pol := StripNot(ph.Edges[idx], true)
+		if c, ok := ConstBool(v); ok {
+			set(ph, c == pol, true)
+		} else if a, ok := assume[v]; ok {
+			set(ph, a == pol, true)
+		} else if q, ok := v.(*ssa.Phi); ok {
+			cur := e
+			if out != nil {
+				cur = out
+			}
+			if qv, known := cur[q]; known && q != ph {
+				set(ph, qv == pol, true)
+			} else {
+				set(ph, false, false)
+			}
+		} else {
+			set(ph, false, false)
+		}
+	}
+	if out == nil {
+		return e
+	}
+	return out
+}
+
+func (r Reach) walkFrom(b *ssa.BasicBlock, from int, pred0 *ssa.BasicBlock, seen map[ssa.Instruction]bool, vis map[*ssa.BasicBlock]bool) {
 	type item struct {
 		b    *ssa.BasicBlock
 		from int
 		pred *ssa.BasicBlock // the block we came from (nil at the start)
+		env  phiEnv
 	}
-	// visited keys: a block whose branch is decided by a bool phi of its own is visited once per
-	// predecessor (the branch taken depends on where we came from), every other block once
-	type key struct{ b, pred *ssa.BasicBlock }
+	// visited keys: a block is visited once per environment of known flag values, and a block whose
+	// branch is decided by a bool phi of its own once per predecessor as well
+	type key struct {
+		b, pred *ssa.BasicBlock
+		env     string
+	}
 	visK := map[key]bool{}
-	work := []item{{b, from, nil}}
+	work := []item{{b, from, pred0, phiEnv{}.enter(b, pred0, r.Assume)}}
+	if from != 0 {
+		work[0].env = nil
+	}
 	for len(work) > 0 {
 		it := work[len(work)-1]
 		work = work[:len(work)-1]
 		phiBranch := phiDecidedBranch(it.b)
 		if it.from == 0 {
-			k := key{it.b, nil}
+			k := key{it.b, nil, it.env.key()}
 			if phiBranch != nil {
 				k.pred = it.pred
 			}
@@ -439,12 +571,28 @@ func (r Reach) walk(b *ssa.BasicBlock, from int, seen map[ssa.Instruction]bool, 
 		if stopped {
 			continue
 		}
+		// a branch on a flag whose value is known on this path
+		known, kv := false, false
+		if ifi, ok := lastInstr(it.b).(*ssa.If); ok {
+			c, pol := StripNot(ifi.Cond, true)
+			if ph, ok := c.(*ssa.Phi); ok {
+				if v, ok := it.env[ph]; ok {
+					known, kv = true, v == pol
+				}
+			}
+			if v, ok := r.Assume[c]; ok {
+				known, kv = true, v == pol
+			}
+		}
 		for si, s := range it.b.Succs {
 			if r.StopEdge != nil && r.StopEdge(it.b, s) {
 				continue
 			}
+			if known && ((kv && si != 0) || (!kv && si != 1)) {
+				continue
+			}
 			// `x := a || b; if x {…}`: the value of the phi on the edge we came in by decides the branch
-			if phiBranch != nil && it.pred != nil && it.from == 0 {
+			if !known && phiBranch != nil && it.pred != nil && it.from == 0 {
 				if v, ok := phiConstFrom(phiBranch, it.b, it.pred); ok {
 					if (v && si != 0) || (!v && si != 1) {
 						continue
@@ -461,7 +609,7 @@ func (r Reach) walk(b *ssa.BasicBlock, from int, seen map[ssa.Instruction]bool, 
 					}
 				}
 			}
-			work = append(work, item{s, 0, it.b})
+			work = append(work, item{s, 0, it.b, it.env.enter(s, it.b, r.Assume)})
 		nextSucc:
 		}
 	}
